@@ -74,9 +74,16 @@ class AbsMap:
         return self[k]
 
 
+_REC = {}
+
+
 def rsum(name, term):
     """ghost sum: returns the z3 function Sfun with Sfun(0)=0 and Sfun(i+1)=Sfun(i)+term(i); term: z3 Int -> z3 Real"""
-    f = z3.RecFunction(S.cur().fresh(name), z3.IntSort(), z3.RealSort())
+    nm = S.cur().fresh(name)
+    if nm in _REC:          # same definition on every path of the same harness
+        return _REC[nm]
+    f = z3.RecFunction(nm, z3.IntSort(), z3.RealSort())
+    _REC[nm] = f
     i = z3.Int(S.cur().fresh('i'))
     z3.RecAddDefinition(f, [i], z3.If(i <= 0, z3.RealVal(0), f(i - 1) + term(i - 1)))
     return f
@@ -84,7 +91,11 @@ def rsum(name, term):
 
 def rsum2(name, term):
     """ghost sum with a parameter: Sfun(0,k)=0, Sfun(i+1,k)=Sfun(i,k)+term(i,k)"""
-    f = z3.RecFunction(S.cur().fresh(name), z3.IntSort(), z3.IntSort(), z3.RealSort())
+    nm = S.cur().fresh(name)
+    if nm in _REC:
+        return _REC[nm]
+    f = z3.RecFunction(nm, z3.IntSort(), z3.IntSort(), z3.RealSort())
+    _REC[nm] = f
     i, k = z3.Int(S.cur().fresh('i')), z3.Int(S.cur().fresh('k'))
     z3.RecAddDefinition(f, [i, k], z3.If(i <= 0, z3.RealVal(0), f(i - 1, k) + term(i - 1, k)))
     return f
